@@ -6,5 +6,5 @@ if [ -n "$(git status --porcelain)" ]; then echo "/repo not clean"; exit 2; fi
 git apply "$P" || { echo "patch does not apply"; exit 2; }
 /verif/check "$ID" "$TIER" > /tmp/mut_out.txt 2>&1; rc=$?
 git -C /repo checkout -- . ; git -C /repo clean -fdq
-grep -E "^(VIOLATION|KNOWN-FINDING|BROKEN|BUILD-FAILED|C[0-9]+ )|^  \[" /tmp/mut_out.txt | cut -c1-400 | head -${4:-8}
+grep -a -E "^(VIOLATION|KNOWN-FINDING|BROKEN|BUILD-FAILED|C[0-9]+ )|^  \[" /tmp/mut_out.txt | cut -c1-400 | head -${4:-8}
 echo "exit=$rc"
